@@ -36,6 +36,16 @@ def run(ctx):
     r4(ctx, facts)
     r5_placeholder_scanner(ctx, facts)
     r6_named_flag_witness(ctx)
+    # the key/value pairs travel with the event (buffer growth, backtrace ring) and never stay behind in a slot (= C03.R4t)
+    from rules import c03
+    from rules.c09 import Renamed as _R
+    c03.transit_event_transfer(_R(ctx, "C03.R4t", "C19.R7t"), facts, "A", "C03.R4")
+    # no key/value pair of an earlier statement survives in a reused backend slot, on the error path as well (= C10.R2); the JSON line
+    # assembled by the sink is written whole, exactly once (= C14.R1h)
+    from rules import c10, c14
+    from rules.c09 import Renamed
+    c10.r2(Renamed(ctx, "C10.R2", "C19.R8"), facts, "A")
+    c14.stream_write(Renamed(ctx, "C14.R1h", "C19.R9"), facts)
 
 
 def r1(ctx):
